@@ -22,4 +22,28 @@ CHECKS = {
         "assumptions": SIM_ASSUME,
         "stages": [sim_stage(2500, 40000)],
     },
+    "C02": {
+        "pkg": "c02", "level": "exploration",
+        "rule": "same DagCase generator as C01 (no stop / timeout); oracle = local consistency of every step's final state and execution count with the final states of its dependencies and its own outcome script (reference semantics in sim.Expect). Non-trivial: (>=1 step with a blocking dependency AND >=1 executed step downstream of a continueOn-licensed failure/skip) OR a join whose parents ended in different states. Distinct: hash of (graph, flags, scripts, realised completion order).",
+        "assumptions": SIM_ASSUME,
+        "stages": [sim_stage(2500, 40000)],
+    },
+    "C03": {
+        "pkg": "c03", "level": "exploration",
+        "rule": "DagCase with retry limits 0..3 and 'fail the first k attempts' scripts with k below/at/above the limit, every maxActiveRuns, all three done-channel consumers, 10% scheduler-level dry runs; oracle = exact execution count per step (0 if not runnable, min(k,limit)+1 otherwise), no overlap of a step's own attempts, no execution after success, recorded retry count == extra attempts, dry run => zero create/enter events. Non-trivial: a retry really happened while >=2 attempts overlapped; dry cases with handlers and >=2 levels. Distinct: hash of (case, realised order).",
+        "assumptions": SIM_ASSUME,
+        "stages": [sim_stage(2500, 40000)],
+    },
+    "C04": {
+        "pkg": "c04", "level": "exploration",
+        "rule": "DagCase x every subset of the four handlers (each scripted ok/fail) x optional stop at a generated trace position (before start, after the N-th event, at create/enter/exit of a chosen attempt, at the first handler); oracle = outcome label by zone (no stop: by step states; stop returned before the last step event: canceled unless all steps succeeded; stop at/after the last step event: either) + exactly the matching handler once, onExit once and last, all handler starts after the last step event. Non-trivial: >=2 handlers and outcome != finished, or a stop while >=1 attempt is open, or a failing handler. Distinct: hash of (case, realised order, zone).",
+        "assumptions": SIM_ASSUME,
+        "stages": [sim_stage(2000, 30000)],
+    },
+    "C15": {
+        "pkg": "c15", "level": "exploration",
+        "rule": "DagCase with w in 1..8 mutually independent root steps plus dependents, maxActiveRuns k in 0..w+1, retry scripts with intervals, generated completion schedules; oracle = high-water mark of simultaneously open Run() calls <= k at every trace position; for k=0 all w roots must be open at once while the harness holds them (bounded wait); every run must complete once attempts are released (bounded liveness, confirmed with a 5x re-run). Non-trivial: (w > k > 0 with >=1 retry) or (k = 0 with w >= 3). Distinct: hash of (case, realised order).",
+        "assumptions": SIM_ASSUME,
+        "stages": [sim_stage(2000, 30000)],
+    },
 }
